@@ -264,10 +264,10 @@ func checkC18(replay string) {
 		base.Harness("probe module does not compile: %s", out)
 	}
 	// sanity of the probe itself: with everything visible all plants are reported
-	boolEnvPool := []string{"true", "TRUE", "True", "1", "yes", "YES", "Yes", "on", "ON", " on ", "\ttrue\n", "t", "T", "false", "0", "no", "off", "2", "maybe", "y", "enabled", "tru", "truee", "01", "-1", " ", "ｔｒｕｅ", "true,false"}
+	boolEnvPool := []string{"true", "TRUE", "True", "1", "yes", "YES", "Yes", "on", "ON", " on ", "\ttrue\n", "t", "T", "false", "0", "no", "off", "2", "maybe", "y", "enabled", "tru", "truee", "01", "-1", " ", "ｔｒｕｅ", "true,false", "true=1", "on=off", "=true"}
 	boolFlagPool := []string{"true", "false", "1", "0", "t", "f", "T", "F", "TRUE", "FALSE", "True", "False"}
-	pathsPool := []string{"testdata", " zz_pool1 ", "sub_pool2\t", " testdata", "zz_pool1", "sub_pool2", "zz_pool1,sub_pool2", " zz_pool1 , sub_pool2 ,testdata", ",,zz_pool1,,", "nothing-matches", "ZZ_POOL1", "pool", "p/", "_test.go", "lib.go", "x.go", " ", ",", "zz_pool1 sub_pool2", "/p/"}
-	checksPool := []string{"IMM", " imm01 ", "\tIMM ", "ALL ", " pkgo02", "imm01", "Imm01,ctor", " TONL02 , PKGO ", "ALL", "all", "IMPL03", ",,", "IMM0", "XX", "IMM01,IMM02,IMM03", "ctor01", "PKGO02", "A L L", "IMM;CTOR", "IMM CTOR", "tonl", "ımm", "ımm01"}
+	pathsPool := []string{"testdata", " zz_pool1 ", "sub_pool2\t", " testdata", "zz_pool1", "sub_pool2", "zz_pool1,sub_pool2", " zz_pool1 , sub_pool2 ,testdata", ",,zz_pool1,,", "nothing-matches", "ZZ_POOL1", "pool", "p/", "_test.go", "lib.go", "x.go", " ", ",", "zz_pool1 sub_pool2", "/p/", "sub_pool2=zz,zz_pool1", "zz_pool1=", "=zz_pool1", "a=b=c"}
+	checksPool := []string{"IMM", " imm01 ", "\tIMM ", "ALL ", " pkgo02", "imm01", "Imm01,ctor", " TONL02 , PKGO ", "ALL", "all", "IMPL03", ",,", "IMM0", "XX", "IMM01,IMM02,IMM03", "ctor01", "PKGO02", "A L L", "IMM;CTOR", "IMM CTOR", "tonl", "ımm", "ımm01", "IMM=x,CTOR", "ALL=", "=ALL", "IMM01=IMM01"}
 	var cfgs []c18cfg
 	vals := func(pool []string) []optVal {
 		out := []optVal{{false, ""}, {true, ""}}
